@@ -378,6 +378,76 @@ func mutateBytes(b []byte, c *Corrupt) []byte {
 		return out
 	case "set":
 		return []byte(c.Val)
+	case "idxoid", "idxval", "idxdrop", "idxdup", "idxswap", "oiddrop", "oiddup":
+		// structure-aware damage of the serialised index: At = field number * 8 + entry number
+		var doc map[string]interface{}
+		dec := json.NewDecoder(bytes.NewReader(b))
+		dec.UseNumber()
+		if dec.Decode(&doc) != nil {
+			return b
+		}
+		idx, _ := doc["index"].(map[string]interface{})
+		if idx == nil {
+			return b
+		}
+		fields, _ := idx["fields"].(map[string]interface{})
+		names := []string{}
+		for n := range fields {
+			names = append(names, n)
+		}
+		sort.Strings(names)
+		oids, _ := idx["object-ids"].(map[string]interface{})
+		if len(names) == 0 {
+			return b
+		}
+		f, _ := fields[names[(c.At/8)%len(names)]].(map[string]interface{})
+		list, _ := f["index"].([]interface{})
+		switch c.Kind {
+		case "oiddrop", "oiddup":
+			keys := []string{}
+			for k := range oids {
+				keys = append(keys, k)
+			}
+			sort.Strings(keys)
+			if len(keys) == 0 {
+				return b
+			}
+			k := keys[c.At%len(keys)]
+			if c.Kind == "oiddrop" {
+				delete(oids, k)
+			} else {
+				oids["77"] = oids[k]
+			}
+		default:
+			if len(list) == 0 {
+				return b
+			}
+			j := c.At % 8 % len(list)
+			o := (j + 1) % len(list)
+			ej, _ := list[j].([]interface{})
+			eo, _ := list[o].([]interface{})
+			if len(ej) != 2 || len(eo) != 2 {
+				return b
+			}
+			switch c.Kind {
+			case "idxoid":
+				list[j] = []interface{}{ej[0], eo[1]}
+			case "idxval":
+				list[j] = []interface{}{eo[0], ej[1]}
+			case "idxswap":
+				list[j], list[o] = list[o], list[j]
+			case "idxdrop":
+				list = append(list[:j:j], list[j+1:]...)
+			case "idxdup":
+				list = append(list, list[j])
+			}
+			f["index"] = list
+		}
+		nb, err := json.Marshal(doc)
+		if err != nil {
+			return b
+		}
+		return nb
 	case "node":
 		// replace the At-th JSON node (pre-order) by Val
 		var doc interface{}
